@@ -7,6 +7,7 @@ import (
 	"net/http/httptest"
 	"os"
 	"path/filepath"
+	"regexp"
 	"strings"
 	"sync"
 
@@ -26,14 +27,25 @@ var (
 	resolveSrvOnce sync.Once
 	resolveSrv     *httptest.Server
 	resolveTgz     []byte
+	resolveMu      sync.Mutex
+	resolveReqs    []string // paths requested since the last reset
+	resolveIndex   string   // what /index.yaml answers (the repository of a dependency that is not in repositories.yaml)
 )
 
 func resolveServer() *httptest.Server {
 	resolveSrvOnce.Do(func() {
 		resolveTgz, _ = mkTarGz([]tarEntry{{Name: "foo/Chart.yaml", Body: []byte("apiVersion: v2\nname: foo\nversion: 1.0.0\n")}})
 		resolveSrv = httptest.NewServer(http.HandlerFunc(func(w http.ResponseWriter, r *http.Request) {
+			resolveMu.Lock()
+			resolveReqs = append(resolveReqs, r.URL.Path)
+			index := resolveIndex
+			resolveMu.Unlock()
 			if strings.HasSuffix(r.URL.Path, ".tgz") {
 				w.Write(resolveTgz)
+				return
+			}
+			if r.URL.Path == "/index.yaml" && index != "" {
+				io.WriteString(w, index)
 				return
 			}
 			http.NotFound(w, r)
@@ -42,6 +54,8 @@ func resolveServer() *httptest.Server {
 	})
 	return resolveSrv
 }
+
+var plainVersion = regexp.MustCompile(`^[0-9A-Za-z.-]+$`)
 
 var resolveRanges = []string{"^1.0.0", "~1.2", ">=1.0.0 <2.0.0", ">1.0.0-0", "*", "1.x", ">=2.0.0-alpha", "<1.0.0", "^2.0.0-0", "=1.0.1", "!=2.0.0", ">= 1.2, < 3.0.0-0", "~2.0.0-rc", "1.0.0", "2.0.0-rc.1", "v1.5.0", "bogus constraint", ">=0.0.0-0", "<=2.0.0-rc.9", ">10"}
 
@@ -57,11 +71,24 @@ func resolveCase(m *Model, rep *Report, r *Rng, dir string, es []idxEntry, loade
 	os.MkdirAll(cache, 0o755)
 	os.MkdirAll(chartDir, 0o755)
 	cfg := filepath.Join(root, "repositories.yaml")
-	os.WriteFile(cfg, []byte("apiVersion: v1\nrepositories:\n- name: r\n  url: "+srv.URL+"\n"), 0o644)
-	os.WriteFile(filepath.Join(cache, "r-index.yaml"), []byte(content), 0o644)
+	// every other resolve case the dependency's repository is not in repositories.yaml: the manager fetches the index from
+	// the URL itself (`helm dependency update` on a chart naming a repository that was never `helm repo add`ed)
+	unregistered := (idx/3)%2 == 0
+	resolveMu.Lock()
+	resolveReqs, resolveIndex = nil, ""
+	if unregistered {
+		resolveIndex = content
+	}
+	resolveMu.Unlock()
+	if unregistered {
+		os.WriteFile(cfg, []byte("apiVersion: v1\nrepositories: []\n"), 0o644)
+	} else {
+		os.WriteFile(cfg, []byte("apiVersion: v1\nrepositories:\n- name: r\n  url: "+srv.URL+"\n"), 0o644)
+		os.WriteFile(filepath.Join(cache, "r-index.yaml"), []byte(content), 0o644)
+	}
 	rng := Pick(r, resolveRanges)
 	os.WriteFile(filepath.Join(chartDir, "Chart.yaml"), []byte(fmt.Sprintf("apiVersion: v2\nname: parent\nversion: 0.1.0\ndependencies:\n- name: foo\n  version: %q\n  repository: %s\n", rng, srv.URL)), 0o644)
-	man := &downloader.Manager{Out: io.Discard, ChartPath: chartDir, SkipUpdate: true, RepositoryConfig: cfg, RepositoryCache: cache,
+	man := &downloader.Manager{Out: io.Discard, ChartPath: chartDir, SkipUpdate: !unregistered, RepositoryConfig: cfg, RepositoryCache: cache,
 		Getters: getter.Providers{getter.Provider{Schemes: []string{"http"}, New: getter.NewHTTPGetter}}}
 	var uerr error
 	if p := safely(func() { uerr = man.Update() }); p != "" {
@@ -105,7 +132,22 @@ func resolveCase(m *Model, rep *Report, r *Rng, dir string, es []idxEntry, loade
 		// the lock records the version as the semver library spells the entry's own string back (v.Original())
 		want = "version " + es[i].version
 	}
-	rep.H("resolve:" + map[bool]string{true: "locked", false: "error"}[uerr == nil])
+	rep.H("resolve:" + map[bool]string{true: "locked", false: "error"}[uerr == nil] + map[bool]string{true: ":unregistered-repo", false: ""}[unregistered])
+	// what was downloaded into charts/ is the entry that was locked
+	if uerr == nil && strings.HasPrefix(got, "version ") && plainVersion.MatchString(strings.TrimPrefix(got, "version ")) {
+		resolveMu.Lock()
+		var tgz []string
+		for _, q := range resolveReqs {
+			if strings.HasSuffix(q, ".tgz") {
+				tgz = append(tgz, q)
+			}
+		}
+		resolveMu.Unlock()
+		wantPath := "/foo-" + strings.TrimPrefix(got, "version ") + ".tgz"
+		if len(tgz) != 1 || tgz[0] != wantPath {
+			rep.Issue(Issue{Kind: "monitor", Fingerprint: "C18:lock-download-differ", What: fmt.Sprintf("Chart.lock says %s for range %q but the archive(s) downloaded into charts/ are %v", got, rng, tgz), Case: map[string]any{"index": content, "range": rng, "unregistered": unregistered}, Model: wantPath, Impl: tgz, Seed: seed, Index: idx})
+		}
+	}
 	if got != want {
 		rep.Issue(Issue{Kind: "disagreement", Fingerprint: "C18:model:resolve", What: fmt.Sprintf("Manager.Update locked %q for range %q, model: %q (%v)", got, rng, want, uerr), Case: map[string]any{"index": content, "range": rng}, Model: mr, Impl: got, Seed: seed, Index: idx})
 	}
